@@ -397,6 +397,8 @@ func (u *Unit) callFunc(st *State, fo *types.Func, recv *Val, args []Val, c *ast
 	} else if decl := u.eng.findDecl(pk, key); decl != nil && u.canInline(decl, pk, key) {
 		res = u.inlineDecl(st, pk, decl, recv, args, c)
 	} else {
+		u.callN[key]++
+		u.checkCallAsserts(st, pk, key, u.callN[key], c.Pos())
 		res = u.callUnknown(st, pk+"."+key, sigT, append(recvList(recv), args...), c.Pos(), nil)
 	}
 	if hasWB {
@@ -491,16 +493,7 @@ func (u *Unit) applyContract(st *State, ct *Contract, pk, key string, _ any, sig
 	}
 	u.usedContracts[pk+"."+key] = true
 	// in-body assertions attached to this call site
-	if u.contract != nil {
-		for _, ca := range u.contract.CallAsserts {
-			if calleeMatches(ca.Callee, pk, key) && ca.K == k {
-				aenv := u.funcEnvAt(st, pos)
-				for _, cl := range ca.Clauses {
-					u.checkClause(aenv, cl, "assert", fmt.Sprintf("%s@call %s#%d", labelOr(cl.Label, "a"), shortKey(key), k), pos, st, true)
-				}
-			}
-		}
-	}
+	u.checkCallAsserts(st, pk, key, k, pos)
 	for i, r := range ct.Requires {
 		u.checkClause(env, r, "pre@call", fmt.Sprintf("%s#%d.%s", shortKey(key), k, labelOr(r.Label, strconv.Itoa(i+1))), pos, st, false)
 	}
@@ -1187,4 +1180,20 @@ func (u *Unit) ghostVarKey(home *packages.Package, name string) (string, string)
 	}
 	_, so := u.resolveType(u.eng.pkgs[pkPath], gv.T)
 	return "GV_" + mangle(lastSeg(pkPath)) + "_" + mangle(name), so
+}
+
+// checkCallAsserts: `at call <callee>#k assert ...` clauses are checked (and then assumed) just
+// before the k-th call of the callee.
+func (u *Unit) checkCallAsserts(st *State, pk, key string, k int, pos token.Pos) {
+	if u.contract == nil || u.inlineDepth > 0 {
+		return
+	}
+	for _, ca := range u.contract.CallAsserts {
+		if calleeMatches(ca.Callee, pk, key) && ca.K == k {
+			aenv := u.funcEnvAt(st, pos)
+			for _, cl := range ca.Clauses {
+				u.checkClause(aenv, cl, "assert", fmt.Sprintf("%s@call %s#%d", labelOr(cl.Label, "a"), shortKey(key), k), pos, st, true)
+			}
+		}
+	}
 }
